@@ -3,3 +3,4 @@ pub mod geom;
 pub mod gdsflat;
 pub mod gdsstream;
 pub mod lefrender;
+pub mod tiling;
